@@ -9,6 +9,7 @@ Decision-table and discipline clauses (DESIGN.md §6/C06):
 """
 from lib import (walk, nodes, ends, src, psrc, outcome, top_stmts, contains_node, pat_top_variants, short, calls_in,
                  block_last, strip_refs)
+import re
 import kinds
 from kinds import ALL
 
@@ -25,7 +26,11 @@ EXPLANATION = (
     "functions that take a JSON default value apart by struct property look members up by the property's wire name: a "
     "StructProperty's `name` (the Rust identifier) is used there only inside formatting macros or as the value of the "
     "`StructPropertyRename::None` arm of a match on that property's `rename`; (D6) the property classifier answers Required "
-    "only on a path where the `default` it was handed is known to be None."
+    "only on a path where the `default` it was handed is known to be None; (W2) wherever a schema default (an entry's "
+    "`default`, a property's `Default(v)`) is handed to the validator outside the validator family itself, the answer is "
+    "matched for `DefaultKind::Generic(f)` and f is inserted into the space's set of shared default functions — the "
+    "renderer only names those functions, this set is what defines them; (W3) the generator never writes to a schema's "
+    "annotations (`schemars::schema::Metadata`, where `default` lives): they are only read."
 )
 ASSUMPTIONS = ["serde_json::Value::as_* / is_* semantics as documented", "the rendered literal's numeric value is not decided (see DESIGN.md)"]
 
@@ -139,6 +144,8 @@ def variant_cells(c, fn, roots):
 
 def run(facts, rep, tier):
     c = facts.impl
+    run_w2(facts, rep)
+    run_w3(facts, rep)
     val, ren = find_mirror(c)
     if not rep.floor("C06.D1", "default validator / renderer pair", (1 if val else 0) + (1 if ren else 0), 2):
         return
@@ -485,3 +492,63 @@ def run(facts, rep, tier):
                        "`%s` (the Rust identifier) is used outside `match rename { None => name, Rename(r) => r, .. }` in a function that takes a JSON default apart: a renamed property's member is not found under its JSON name, so its default is dropped or moved to the flattened member" % src(n), n.get("sp") or h.get("sp"))
                 k_in_fn += 1
     rep.floor("C06.D5", "uses of StructProperty.name in fns that take a JSON value", n_uses, 5)
+
+
+def run_w2(facts, rep):
+    from lib import Canon
+    c = facts.impl
+    prod = [q for q, fn in c.fns.items() if "DefaultKind" in fn.get("output", "") and not fn.get("derived")]
+    rep.floor("C06.W2", "validators answering a DefaultKind", len(prod), 6)
+    n_sites = 0
+    for h in c.user_fns():
+        if h["fn"] in prod:
+            continue
+        cn = None
+        k_in = 0
+        for n, anc in walk(h["body"]):
+            if not (n.get("k") in ("call", "mcall") and n.get("fn") in prod):
+                continue
+            cn = cn or Canon(c, h, 4)
+            args = ([n["recv"]] if n.get("k") == "mcall" else []) + list(n["args"])
+            vals = [cn.r(a) for a in args if "Value" in (c.ty(a.get("ty")) or "")]
+            if not any(re.search(r"(\.default~Some|\.state~Default)\b", v) for v in vals):
+                continue  # not a schema default (e.g. enum values are validated, never rendered through default helpers)
+            n_sites += 1
+            ok = False
+            for a in anc:
+                if a.get("k") == "if" and a["cond"].get("k") == "letx" and contains_node(a["cond"]["init"], n) and "DefaultKind::Generic" in psrc(a["cond"]["pat"]):
+                    binds = [b["name"] for b, _ in walk(a["cond"]["pat"]) if b.get("k") == "bind"]
+                    for x, _ in walk(a["then"]):
+                        if x.get("k") == "mcall" and x["name"] == "insert" and strip_refs(x["recv"]).get("k") == "field" and strip_refs(x["recv"])["name"] == "defaults":
+                            a0 = strip_refs(x["args"][0]) if x.get("args") else {}
+                            if a0.get("k") == "path" and a0.get("path") in binds:
+                                ok = True
+            rep.ob("C06.W2", "generic-default-registered:%s#%d" % (h["fn"], k_in), ok,
+                   "`if let DefaultKind::Generic(f) = validate(..)? { space.defaults.insert(f) }`" if ok else
+                   "a schema default is validated here but a `DefaultKind::Generic` answer is discarded: the attribute `default = \"defaults::default_u64::<..>\"` is still emitted for it, naming a helper function that is never defined (the output does not compile)", n.get("sp"))
+            k_in += 1
+    rep.floor("C06.W2", "sites handing a schema default to the validator", n_sites, 2)
+
+
+def run_w3(facts, rep):
+    c = facts.impl
+    reads = writes = 0
+    for h in c.user_fns():
+        for n, anc in walk(h["body"]):
+            if n.get("k") == "field" and (c.ty(n.get("bty")) or "").replace("&", "").replace("mut ", "").strip() in ("schemars::schema::Metadata", "std::boxed::Box<schemars::schema::Metadata>"):
+                par = anc[-1] if anc else {}
+                w = None
+                if par.get("k") in ("assign", "assignop") and par.get("l") is n:
+                    w = "`%s`" % src(par)[:80]
+                elif par.get("k") == "mcall" and par.get("recv") is n and par["name"] in ("take", "insert", "replace", "get_or_insert", "get_or_insert_with", "as_mut", "push", "clear", "extend"):
+                    w = "`%s`" % src(par)[:80]
+                elif par.get("k") == "ref" and par.get("mut"):
+                    w = "`&mut %s`" % src(n)[:60]
+                if w:
+                    writes += 1
+                    rep.ob("C06.W3", "annotations-read-only:%s#%d" % (h["fn"], writes), False,
+                           "%s rewrites a schema annotation before conversion: a `default` (or title/description) that the schema states is no longer what the converters and the default validator see, so an invalid default can pass unreported or a valid one be lost" % w, par.get("sp") or n.get("sp"))
+                else:
+                    reads += 1
+    rep.ob("C06.W3", "annotations-read-only", writes == 0, "no write to a Metadata field (%d reads)" % reads if writes == 0 else "%d writes to Metadata fields" % writes, nontrivial=False)
+    rep.floor("C06.W3", "reads of Metadata fields (the matcher sees them)", reads, 8)
